@@ -92,15 +92,13 @@ def c19_model(ctx):
     quick = ctx.quick()
     tags = ("EDGE", "META")
     hops = 3 if quick else 5
-    if quick:
-        # graph A: the three loopback networks with metric updates; graph B: the default routes of both address
-        # families (configured alone, next to a narrow network of the other family, and added / removed dynamically)
-        jobs = {"ideal": dict(module="ExitPolicy", cfg="MC.cfg", files={"MC.cfg": cfg()}, tags=tags, name="ideal", workers=2),
-                "ideal2": dict(module="ExitPolicy", cfg="MCb.cfg", tags=tags, name="ideal-defaultroutes", workers=2, files={
-                    "MCb.cfg": cfg(metrics=(1,), cfgs=("c0", "c4", "c5", "c6", "c7"), nets=("n2", "n3", "n4", "n6"))})}
-    else:
-        jobs = {"ideal": dict(module="ExitPolicy", cfg="MC.cfg", files={"MC.cfg": cfg(cfgs=ALLCFGS, nets=ALLNETS)}, tags=tags,
-                              name="ideal", workers=4)}
+    # graph A: the three loopback networks with metric updates; graph B: the default routes of both address families
+    # (configured alone, next to a narrow network of the other family, and added / removed dynamically) -- quick: four
+    # networks and the five configurations that matter for them, thorough: all five networks and all configurations
+    bnets, bcfgs = (("n2", "n3", "n4", "n6"), ("c0", "c4", "c5", "c6", "c7")) if quick else (ALLNETS, ALLCFGS)
+    jobs = {"ideal": dict(module="ExitPolicy", cfg="MC.cfg", files={"MC.cfg": cfg()}, tags=tags, name="ideal", workers=2),
+            "ideal2": dict(module="ExitPolicy", cfg="MCb.cfg", tags=tags, name="ideal-defaultroutes", workers=2, files={
+                "MCb.cfg": cfg(metrics=(1,), cfgs=bcfgs, nets=bnets)})}
     jobs.update({
             # every history of route operations up to MaxOps, with the probe requests at every node
             "hist": dict(module="ExitPolicy", cfg="MChist.cfg", tags=tags, name="hist", workers=2, files={"MChist.cfg": cfg(
